@@ -298,7 +298,7 @@ pub fn run(driver: &Driver, seed: u64, thorough: bool, replay: Option<&serde_jso
             rep.oracles.push(or);
             return rep;
         }
-        if let Some(st) = corr::replay(driver, r) {
+        if let Some(st) = corr::replay(driver, seed, thorough, r) {
             rep.streams.push(st);
             return rep;
         }
